@@ -5,6 +5,7 @@ import (
 	"go/constant"
 	"go/token"
 	"go/types"
+	"os"
 	"sort"
 	"strings"
 
@@ -291,8 +292,27 @@ func runC14(c *Check) {
 			if call, isCall := n.In.(*ssa.Call); isCall && op.ctor == "" && op.method == "Put" && len(call.Common().Args) >= 3 {
 				kal, kf := tableField(call.Common().Args[1], 0)
 				val, vf := tableField(call.Common().Args[2], 0)
+				if os.Getenv("VERIF_DEBUG_C14") != "" {
+					fmt.Fprintf(os.Stderr, "DBG table kal=%v kf=%q val=%v vf=%q\n", kal != nil, kf, val != nil, vf)
+					if kal != nil {
+						for k := range litStores(kal) {
+							fmt.Fprintf(os.Stderr, "DBG   row %s\n", k)
+						}
+					}
+				}
 				if kal != nil && kal == val {
-					rows := litStores(kal)
+					// a table variable whose address is taken is initialised by one copy of the literal
+					lit := kal
+					for _, r := range *kal.Referrers() {
+						if st, ok := r.(*ssa.Store); ok && st.Addr == ssa.Value(kal) {
+							if ld, ok := st.Val.(*ssa.UnOp); ok && ld.Op == token.MUL {
+								if inner, ok := ld.X.(*ssa.Alloc); ok {
+									lit = inner
+								}
+							}
+						}
+					}
+					rows := litStores(lit)
 					expanded := false
 					for i := 0; ; i++ {
 						ks, vs := rows[fmt.Sprintf("[%d].%s", i, kf)], rows[fmt.Sprintf("[%d].%s", i, vf)]
